@@ -134,6 +134,15 @@ func (it *Interp) feasible(c *smt.Term) smt.Result {
 	if n := it.C.Not(c); p.pcSet[n.ID] {
 		return smt.Unsat
 	}
+	if v, ok := it.decideByRanges(c); ok { // interval pre-solver (models_ranges.go)
+		if v {
+			return smt.Sat
+		}
+		return smt.Unsat
+	}
+	if it.sampleSat(c) { // sampling pre-solver (models_sample.go): concrete witness
+		return smt.Sat
+	}
 	as := append(append([]*smt.Term{}, p.PC...), c)
 	r, err := it.S.Check(as, it.Cfg.FeasTimeoutMs)
 	if err != nil {
@@ -424,6 +433,9 @@ func (w *Worker) RunJob(j job, solverBin string, shared *workList, jr *JobResult
 	it.jr = local
 	it.work = shared
 	it.hcfg = j.hcfg
+	if j.hcfg != nil && j.hcfg.cur.NoLift {
+		ctx.NoLift = true
+	}
 	it.caseN = j.caseN
 	for {
 		prefix, ok, finished := shared.pop()
